@@ -2015,9 +2015,12 @@ impl<'p> Exec<'p, UWorld> {
             let members = self.set_members(&sl.set.bdd.borrow()).unwrap_or_default();
             parts.push(members.iter().fold(0u64, |acc, e| acc.rotate_left(7) ^ (*e as u64 + 1)));
         }
-        let d = mix(&parts);
-        self.trace.push(d);
-        self.states.push(d);
+        self.trace.push(mix(&parts));
+        // the state measure ignores when the state was reached and which ids the sets carry
+        let mut contents: Vec<u64> = parts[1..].chunks(2).map(|c| c[1]).collect();
+        contents.sort_unstable();
+        contents.insert(0, self.plan.set_bits as u64);
+        self.states.push(mix(&contents));
         Ok(true)
     }
 }
